@@ -355,12 +355,62 @@ def small_counts(maxc):
     return f
 
 
+RR_FIXED = {0: 0x12, 1: 0x34, 2: 0, 3: 0, 4: 0, 5: 0, 6: 0, 7: 1, 8: 0, 9: 0, 10: 0, 11: 0, 12: 0, 13: 0, 15: 0, 16: 1, 17: 0, 18: 0, 19: 1, 20: 0x2c, 21: 0}
+
+
+class BoundaryHarness(Harness):
+    """label / name length boundaries: labels with concrete content, symbolic length octets"""
+    def run(self, ex):
+        w = ex.w
+        k = self.k
+        lens = [ex.sym(f'l{i}', 'u8') for i in range(k)]
+        for l in lens: ex.assume(z3.Or(*[l.v == x for x in self.lens]))
+        cl = [ex.concretize(l) for l in lens]
+        bs = []
+        for i, n in enumerate(cl):
+            bs.append(lens[i]); bs.extend(Int(0x41 + (j % 26), 'u8') for j in range(min(n, 80) if n < 192 else 1))
+            if n >= 64: break
+        bs.append(Int(0, 'u8')); bs.extend([Int(0, 'u8')] * 2)
+        items = [Cell(b) for b in bs]
+        cb = mk_struct(w, 'ConsumableBuffer', octets=SliceRef(items, 0, len(items)), position=Int(0, 'usize'))
+        dfn = install_recursion_monitor(ex, w)
+        r = ex.call_fn(dfn, [Int(7, 'u16'), Ref(Cell(cb))])
+        ex.monitors.clear()
+        rd = refdns.Rd(ex, bs, 0)
+        try: ref = refdns.ref_name(ex, rd); rerr = None
+        except RefErr as e: ref = None; rerr = str(e)
+        smp = {'label_length_octets': cl}
+        if r.variant == 1:
+            vn, e = err_variant(w, r)
+            ex.require(ref is None, 'ref-mismatch', f'implementation rejects ({vn}) a name the reference accepts')
+            return {'cls': 'Err:' + vn, 'sample': smp}
+        ex.require(ref is not None, 'ref-mismatch', f'implementation accepts a name the reference rejects: {rerr}')
+        dn = r.fields[0].v
+        ex.require(labels_eq(name_labels(w, dn), ref), 'ref-mismatch', 'labels differ')
+        ex.require(name_wf(w, dn), 'name-invariant', 'decoded name violates the DomainName invariant')
+        tot = sum(cl) + len(cl) + 1
+        return {'cls': 'Ok-255' if tot == 255 else 'Ok', 'sample': smp}
+
+    def finding_key(self, v): return f"C03 DomainName::deserialise boundary {v.get('tag')}"
+
+
 def harnesses(world, tier, seed):
     q = tier == 'quick'
+    nn = 8 if q else 10; B = 5 if q else 6; R = 5 if q else 8
     hs = [
-        NameHarness(name='name-sym', n=7 if q else 9, bounds={'buffer_bytes': 7 if q else 9, 'start': 'symbolic 0..n', 'bytes': 'fully symbolic'},
+        NameHarness(name='name-sym', n=nn, bounds={'buffer_bytes': nn, 'start': 'symbolic 0..n', 'bytes': 'fully symbolic'},
                     expected_classes=('Ok', 'Ok-ptr', 'Err:DomainTooShort', 'Err:DomainPointerInvalid', 'Err:DomainLabelInvalid')),
         MsgHarness(name='header-lengths', n=12, minlen=0, bounds={'length': '0..12 symbolic', 'bytes': 'fully symbolic incl. flags and counts'},
                    expected_classes=('Ok', 'Err:CompletelyBusted', 'Err:HeaderTooShort')),
+        MsgHarness(name='msg-body', n=12 + B, fixed={2: 0, 3: 0}, assume_fn=small_counts(2),
+                   bounds={'length': 12 + B, 'id': 'symbolic', 'flags': 'fixed 0 (decoded separately in header-lengths)', 'counts': 'each symbolic 0..2', 'body_bytes': f'{B} fully symbolic'},
+                   expected_classes=('Ok', 'Err:QuestionTooShort', 'Err:ResourceRecordTooShort', 'Err:DomainPointerInvalid', 'Err:DomainLabelInvalid', 'Err:DomainTooShort')),
+        MsgHarness(name='rr-template', n=12 + 11 + R, fixed=RR_FIXED,
+                   bounds={'layout': 'header(an=1) + root owner + TYPE(hi=0, lo symbolic) + class IN + ttl + RDLENGTH(hi=0, lo symbolic) + RDATA', 'rdata_bytes': f'{R} fully symbolic', 'concrete': 'id, class, ttl'},
+                   expected_classes=('Ok', 'Err:ResourceRecordInvalid', 'Err:ResourceRecordTooShort', 'Err:DomainPointerInvalid')),
+        BoundaryHarness(name='label-boundary', k=1, lens=[0, 1, 62, 63, 64, 65, 0x7f, 0x80, 0xbf, 0xc0, 0xff],
+                        bounds={'labels': 1, 'length_octet': [0, 1, 62, 63, 64, 65, 0x7f, 0x80, 0xbf, 0xc0, 0xff]}, expected_classes=('Ok', 'Err:DomainLabelInvalid')),
+        BoundaryHarness(name='name-255-boundary', k=4, lens=[60, 61, 62, 63],
+                        bounds={'labels': 4, 'each_length': '60..63 symbolic', 'total': '245..257 around the 255 limit'}, expected_classes=('Ok', 'Ok-255', 'Err:DomainTooLong')),
     ]
-    return hs, (300 if q else 2400), None
+    return hs, (420 if q else 2700), None
